@@ -91,6 +91,11 @@ func (x *xl) rhs(e ast.Expr, t types.Type) ([]string, string, error) {
 
 // simple: a statement without control flow; returns its `let` lines
 func (x *xl) simple(s ast.Stmt) ([]string, error) {
+	if x.w.dom {
+		if l, ok, err := x.domSimple(s); ok || err != nil {
+			return l, err
+		}
+	}
 	switch y := s.(type) {
 	case *ast.EmptyStmt:
 		return nil, nil
@@ -101,16 +106,30 @@ func (x *xl) simple(s ast.Stmt) ([]string, error) {
 				var vals, names []string
 				for i := range y.Rhs {
 					var lt types.Type
+					var lo types.Object
+					isDef := false
 					if id, ok := y.Lhs[i].(*ast.Ident); ok && id.Name != "_" {
 						o := x.p.info.Defs[id]
+						isDef = o != nil
 						if o == nil {
 							o = x.p.info.Uses[id]
 						}
 						if o != nil {
 							lt = o.Type()
+							lo = o
 						}
 					}
-					b, v, err := x.rhs(y.Rhs[i], lt)
+					var b []string
+					var v string
+					var err error
+					if x.w.dom && lo != nil && domKind(lt) != "" {
+						if isDef && x.nullable(y.Rhs[i]) {
+							x.optVars[lo] = true
+						}
+						b, v, err = x.exprTo(y.Rhs[i], lt, x.optVars[lo])
+					} else {
+						b, v, err = x.rhs(y.Rhs[i], lt)
+					}
 					if err != nil {
 						return nil, err
 					}
@@ -184,7 +203,19 @@ func (x *xl) simple(s ast.Stmt) ([]string, error) {
 				if id.Name == "_" || o == nil {
 					return nil, x.errf(s, "blank declaration")
 				}
-				if len(vs.Values) == 0 {
+				if len(vs.Values) == 0 && x.w.dom && domKind(o.Type()) != "" && domKind(o.Type()) != "any" {
+					x.optVars[o] = true
+					lines = append(lines, fmt.Sprintf("let %s := none", x.nameOf(o)))
+				} else if len(vs.Values) == len(vs.Names) && x.w.dom && domKind(o.Type()) != "" {
+					if x.nullable(vs.Values[i]) {
+						x.optVars[o] = true
+					}
+					b, v, err := x.exprTo(vs.Values[i], o.Type(), x.optVars[o])
+					if err != nil {
+						return nil, err
+					}
+					lines = append(append(lines, b...), fmt.Sprintf("let %s := %s", x.nameOf(o), v))
+				} else if len(vs.Values) == 0 {
 					z, err := x.zeroOf(id, o.Type())
 					if err != nil {
 						return nil, err
@@ -294,15 +325,33 @@ func (x *xl) block(stmts []ast.Stmt, k *cont) ([]string, error) {
 			}
 			var vals []string
 			for j, r := range y.Results {
-				b, v, err := x.rhs(r, x.results[j])
+				var b []string
+				var v string
+				var err error
+				if x.w.dom && x.f.External == "" {
+					b, v, err = x.exprTo(r, x.results[j], x.f.NullRes)
+				} else {
+					b, v, err = x.rhs(r, x.results[j])
+				}
 				if err != nil {
 					return nil, err
 				}
 				lines = append(lines, b...)
 				vals = append(vals, v)
 			}
+			if x.acc != nil {
+				vals = append(vals, x.nameOf(x.acc))
+			}
 			return append(lines, k.ret(tupleVal(vals))), nil
 		case *ast.IfStmt:
+			if x.w.dom && y.Init != nil {
+				if l, ok, err := x.optionMatch(y, rest, k); ok || err != nil {
+					if err != nil {
+						return nil, err
+					}
+					return append(lines, l...), nil
+				}
+			}
 			if y.Init != nil {
 				l, err := x.simple(y.Init)
 				if err != nil {
@@ -506,6 +555,22 @@ func (x *xl) loopVars(nodes []ast.Node, before token.Pos, extraOutside map[types
 			case *ast.AssignStmt:
 				for _, l := range y.Lhs {
 					mark(l)
+					switch l2 := l.(type) {
+					case *ast.IndexExpr:
+						mark(l2.X)
+					case *ast.SelectorExpr:
+						mark(l2.X)
+					case *ast.StarExpr:
+						mark(l2.X)
+					}
+				}
+			case *ast.CallExpr:
+				if x.acc != nil {
+					for _, a := range y.Args {
+						if id, ok := a.(*ast.Ident); ok && info.Uses[id] == x.acc {
+							mark(a)
+						}
+					}
 				}
 			case *ast.IncDecStmt:
 				mark(y.X)
@@ -523,6 +588,12 @@ func (x *xl) loopVars(nodes []ast.Node, before token.Pos, extraOutside map[types
 						if b, ok := info.Uses[id].(*types.Builtin); ok && b.Name() == "copy" {
 							mark(c.Args[0])
 						}
+					}
+					if sel, ok := c.Fun.(*ast.SelectorExpr); ok && x.w.dom && domKind(x.typeOf(sel.X)) != "" {
+						mark(sel.X) // statement call of a builder method
+					}
+					if fn := x.calleeFunc(c); fn != nil && fn.Pkg() != nil && fn.Pkg().Path() == "slices" && len(c.Args) == 1 {
+						mark(c.Args[0])
 					}
 				}
 			case *ast.Ident:
@@ -566,6 +637,8 @@ func (x *xl) loop(s ast.Stmt, rest []ast.Stmt, k *cont) ([]string, bool, error) 
 	extra := map[types.Object]bool{}
 	fs, isFor := s.(*ast.ForStmt)
 	rs, _ := s.(*ast.RangeStmt)
+	isMapRange := false
+	var idxObj types.Object
 	if isFor {
 		if fs.Init != nil {
 			l, err := x.simple(fs.Init)
@@ -594,15 +667,21 @@ func (x *xl) loop(s ast.Stmt, rest []ast.Stmt, k *cont) ([]string, bool, error) 
 	} else {
 		body = rs.Body
 		nodes = []ast.Node{rs.Body}
-		if rs.Key != nil {
+		if _, ok := x.typeOf(rs.X).Underlying().(*types.Map); ok && x.w.dom && domKind(x.typeOf(rs.X)) == "cont" {
+			isMapRange = true
+		}
+		if rs.Key != nil && !isMapRange {
 			if id, ok := rs.Key.(*ast.Ident); !ok || id.Name != "_" {
-				return nil, false, x.errf(rs, "range with an index variable")
+				if !x.w.dom || !ok {
+					return nil, false, x.errf(rs, "range with an index variable")
+				}
+				idxObj = x.p.info.Defs[id]
 			}
 		}
 		if rs.Tok == token.ASSIGN {
 			return nil, false, x.errf(rs, "range assigning to existing variables")
 		}
-		if _, ok := x.typeOf(rs.X).Underlying().(*types.Slice); !ok {
+		if _, ok := x.typeOf(rs.X).Underlying().(*types.Slice); !ok && !isMapRange {
 			return nil, false, x.errf(rs, "range over %s", x.typeOf(rs.X))
 		}
 	}
@@ -622,7 +701,7 @@ func (x *xl) loop(s ast.Stmt, rest []ast.Stmt, k *cont) ([]string, bool, error) 
 
 	var stNames, stTypes []string
 	for _, v := range state {
-		t, err := x.w.leanType(v.Type())
+		t, err := x.varLeanType(v)
 		if err != nil {
 			return nil, false, x.errf(s, "%v", err)
 		}
@@ -651,11 +730,12 @@ func (x *xl) loop(s ast.Stmt, rest []ast.Stmt, k *cont) ([]string, bool, error) 
 	// the range / fuel argument (evaluated before the loop)
 	var driverArg, driverT, pat0, patS string
 	restName := ""
+	idxName := ""
 	if isFor {
 		if x.fuelIdx >= len(x.f.Fuel) {
 			return nil, false, x.errf(s, "for loop without a fuel expression in the whitelist entry")
 		}
-		fe, err := parser.ParseExpr(x.f.Fuel[x.fuelIdx])
+		fe, err := parser.ParseExpr(substParams(x.f.Fuel[x.fuelIdx], x.goParamNames))
 		if err != nil {
 			return nil, false, fmt.Errorf("fuel expression %q: %v", x.f.Fuel[x.fuelIdx], err)
 		}
@@ -677,16 +757,33 @@ func (x *xl) loop(s ast.Stmt, rest []ast.Stmt, k *cont) ([]string, bool, error) 
 			return nil, false, err
 		}
 		lines = append(lines, b...)
-		et, err := x.w.leanType(x.typeOf(rs.X).Underlying().(*types.Slice).Elem())
-		if err != nil {
-			return nil, false, x.errf(rs, "%v", err)
+		var et string
+		if isMapRange {
+			et = "(String × Node)"
+		} else {
+			et, err = x.w.leanType(x.typeOf(rs.X).Underlying().(*types.Slice).Elem())
+			if err != nil {
+				return nil, false, x.errf(rs, "%v", err)
+			}
 		}
 		elem := "_"
 		if id, ok := rs.Value.(*ast.Ident); ok && id.Name != "_" {
 			elem = x.nameOf(x.p.info.Defs[id])
 		}
+		if isMapRange {
+			key := "_"
+			if id, ok := rs.Key.(*ast.Ident); ok && id.Name != "_" {
+				key = x.nameOf(x.p.info.Defs[id])
+			}
+			elem = "(" + key + ", " + elem + ")"
+		}
 		restName = x.fresh("rest")
 		driverArg, driverT, pat0, patS = v, "(List "+et+")", "[]", elem+" :: "+restName
+		if idxObj != nil {
+			// `for i, x := range xs`: a counter next to the list
+			idxName = x.nameOf(idxObj)
+			driverArg, driverT, pat0, patS = v+") (0", "(List "+et+") → Int", "[], "+idxName, elem+" :: "+restName+", "+idxName
+		}
 	}
 
 	// body of the auxiliary definition
@@ -699,6 +796,9 @@ func (x *xl) loop(s ast.Stmt, rest []ast.Stmt, k *cont) ([]string, bool, error) 
 	recArg := "fuel"
 	if !isFor {
 		recArg = restName
+		if idxName != "" {
+			recArg = restName + " (" + idxName + " + 1)"
+		}
 	}
 	callWith := func(caps []string, drv string) string {
 		parts := append([]string{name}, caps...)
@@ -751,7 +851,7 @@ func (x *xl) loop(s ast.Stmt, rest []ast.Stmt, k *cont) ([]string, bool, error) 
 	}
 	// flattened-receiver / opaque parameters referenced inside the loop are captured too
 	var extraCaps []xlParam
-	for _, p := range append(append([]xlParam{}, x.opaquePs...), x.flatPs...) {
+	for _, p := range append(append(append([]xlParam{}, x.recPs...), x.opaquePs...), x.flatPs...) {
 		if x.touched[p.name] {
 			extraCaps = append(extraCaps, p)
 		}
@@ -767,7 +867,7 @@ func (x *xl) loop(s ast.Stmt, rest []ast.Stmt, k *cont) ([]string, bool, error) 
 		capDecl = append(capDecl, fmt.Sprintf("(%s : %s)", p.name, p.typ))
 	}
 	for _, v := range captured {
-		t, err := x.w.leanType(v.Type())
+		t, err := x.varLeanType(v)
 		if err != nil {
 			return nil, false, x.errf(s, "%v", err)
 		}
@@ -860,6 +960,16 @@ func (x *xl) resultType() (string, error) {
 		if err != nil {
 			return "", err
 		}
+		if x.f.NullRes {
+			s = "(Option " + s + ")"
+		}
+		ts = append(ts, s)
+	}
+	if x.acc != nil {
+		s, err := x.varLeanType(x.acc)
+		if err != nil {
+			return "", err
+		}
 		ts = append(ts, s)
 	}
 	return tupleType(ts), nil
@@ -898,14 +1008,46 @@ func (x *xl) impure2(n ast.Node) bool {
 func (w *xlWorld) translateFunc(repo string, p *xlPkg, f *xlFunc, fd *ast.FuncDecl) (string, error) {
 	fn := p.info.Defs[fd.Name].(*types.Func)
 	sig := fn.Type().(*types.Signature)
+	domMode := w.dom && f.External == ""
 	x := &xl{w: w, p: p, f: f, fd: fd, names: map[types.Object]string{}, used: map[string]bool{}, flat: map[string]string{},
-		opaque: map[string]string{}, touched: map[string]bool{}}
-	x.monadic = x.scanMonadic(fd.Body) || f.Rec
+		opaque: map[string]string{}, touched: map[string]bool{}, optVars: map[types.Object]bool{}, paramObjs: map[types.Object]bool{},
+		inGroup: map[*types.Func]bool{}, dispatch: map[string]string{}}
+	if !domMode {
+		// the plain subset of translate.go
+		saved := w.dom
+		w.dom = false
+		defer func() { w.dom = saved }()
+	}
+	x.monadic = domMode || x.scanMonadic(fd.Body) || f.Rec
+	null := map[string]bool{}
+	for _, n := range f.Nullable {
+		null[n] = true
+	}
 	var params []xlParam
 	addParam := func(v *types.Var) error {
-		t, err := w.leanType(v.Type())
+		x.paramObjs[v] = true
+		var t string
+		var err error
+		if f.Acc != "" && v.Name() == f.Acc {
+			pt, ok := v.Type().Underlying().(*types.Pointer)
+			if !ok {
+				return fmt.Errorf("accumulator %s is not a pointer", f.Acc)
+			}
+			x.acc = v
+			t, err = w.leanType(pt.Elem())
+		} else {
+			t, err = w.leanType(v.Type())
+		}
 		if err != nil {
 			return fmt.Errorf("%s: parameter %s: %v", w.fset.Position(v.Pos()), v.Name(), err)
+		}
+		if null[v.Name()] {
+			if !domMode || domKind(v.Type()) == "" {
+				return fmt.Errorf("parameter %s cannot be Nullable", v.Name())
+			}
+			delete(null, v.Name())
+			x.optVars[v] = true
+			t = "(Option " + t + ")"
 		}
 		n := ""
 		if v.Name() == "" || v.Name() == "_" {
@@ -927,8 +1069,16 @@ func (w *xlWorld) translateFunc(repo string, p *xlPkg, f *xlFunc, fd *ast.FuncDe
 		if err := addParam(sig.Params().At(i)); err != nil {
 			return "", err
 		}
+		x.goParamNames = append(x.goParamNames, sig.Params().At(i).Name())
+		x.leanParamNames = append(x.leanParamNames, params[len(params)-1].name)
 	}
-	if sig.Variadic() {
+	if len(null) > 0 {
+		return "", fmt.Errorf("Nullable names a parameter that does not exist")
+	}
+	if f.Acc != "" && x.acc == nil {
+		return "", fmt.Errorf("accumulator parameter %s not found", f.Acc)
+	}
+	if sig.Variadic() && !domMode {
 		return "", fmt.Errorf("variadic function")
 	}
 	for i := 0; i < sig.Results().Len(); i++ {
@@ -937,8 +1087,11 @@ func (w *xlWorld) translateFunc(repo string, p *xlPkg, f *xlFunc, fd *ast.FuncDe
 		}
 		x.results = append(x.results, sig.Results().At(i).Type())
 	}
-	if len(x.results) == 0 {
+	if len(x.results) == 0 && x.acc == nil {
 		return "", fmt.Errorf("%s: unsupported: function without results", w.fset.Position(fd.Pos()))
+	}
+	if f.NullRes && (len(x.results) != 1 || domKind(x.results[0]) == "") {
+		return "", fmt.Errorf("NullRes needs a single DOM-typed result")
 	}
 	retT, err := x.resultType()
 	if err != nil {
@@ -953,9 +1106,31 @@ func (w *xlWorld) translateFunc(repo string, p *xlPkg, f *xlFunc, fd *ast.FuncDe
 		x.used[xlRecName] = true
 		x.opaquePs = append(x.opaquePs, xlParam{xlRecName, "(" + strings.Join(append(ts, "Go.Res "+retT), " → ") + ")"})
 	}
+	// recursion group
+	_, isRec := w.recs[fn]
+	if isRec {
+		for g, r := range w.recs {
+			if r.f.RecGroup == f.RecGroup && (f.RecGroup != "" || g == fn) {
+				x.inGroup[g] = true
+				x.used[r.param] = true
+			}
+		}
+		// deterministic order: whitelist order = registration order is not kept in a map, so sort by name
+		var rs []*xlRec
+		for g := range x.inGroup {
+			rs = append(rs, w.recs[g])
+		}
+		sort.Slice(rs, func(i, j int) bool { return rs[i].param < rs[j].param })
+		for _, r := range rs {
+			x.recPs = append(x.recPs, xlParam{r.param, r.typ})
+		}
+	}
 	k := &cont{
 		ret: func(v string) string { return x.pureWrap(v) },
 		fall: func() ([]string, error) {
+			if x.acc != nil && len(x.results) == 0 {
+				return []string{x.pureWrap(x.nameOf(x.acc))}, nil
+			}
 			return nil, fmt.Errorf("%s: unsupported: control reaches the end of the function without return", w.fset.Position(fd.Pos()))
 		},
 	}
@@ -974,7 +1149,8 @@ func (w *xlWorld) translateFunc(repo string, p *xlPkg, f *xlFunc, fd *ast.FuncDe
 	if f.Rec {
 		return x.emitRec(fn, params, retT, body)
 	}
-	all := append(append(append([]xlParam{}, x.opaquePs...), x.flatPs...), params...)
+	pre := append(append([]xlParam{}, x.opaquePs...), x.flatPs...)
+	all := append(append([]xlParam{}, pre...), params...)
 	var b strings.Builder
 	for _, a := range x.aux {
 		b.WriteString(a)
@@ -984,24 +1160,88 @@ func (w *xlWorld) translateFunc(repo string, p *xlPkg, f *xlFunc, fd *ast.FuncDe
 	if f.Recv != "" {
 		recv = f.Recv + "."
 	}
-	fmt.Fprintf(&b, "/-- %s  %s.%s%s   source digest %s -/\n", w.relPos(fd.Pos()), f.Pkg, recv, f.Name, xlDigest(w.fset, fd))
+	if x.monadic {
+		retT = "Go.Res " + retT
+	}
+	doc := fmt.Sprintf("/-- %s  %s.%s%s   source digest %s -/\n", w.relPos(fd.Pos()), f.Pkg, recv, f.Name, xlDigest(w.fset, fd))
+	done := &xlDone{lean: f.Lean, monadic: x.monadic, nparams: len(all), f: f, nopaque: len(x.opaquePs), sig: sig}
+	for i, key := range x.flatKeys {
+		done.flat = append(done.flat, xlFlat{key, x.flatPs[i].typ})
+	}
+	if f.External != "" {
+		done.lean = f.External
+	}
+	if len(x.opaquePs)+len(x.flatPs) > 0 {
+		done.nparams = -1 // cannot be called from code translated by translate.go alone
+	}
+	w.done[fn] = done
+	if f.Flatten && len(x.opaquePs) == 0 {
+		// callable by a flattened method on the same receiver (translate_rec.go)
+		done.flatKeys, done.flatTypes = x.flatKeyList()
+	}
+	if !isRec {
+		b.WriteString(doc)
+		fmt.Fprintf(&b, "def %s", f.Lean)
+		for _, a := range all {
+			fmt.Fprintf(&b, " (%s : %s)", a.name, a.typ)
+		}
+		fmt.Fprintf(&b, " : %s :=%s\n", retT, x.blockKw())
+		b.WriteString(strings.Join(ind(body), "\n"))
+		b.WriteString("\n")
+		return b.String(), nil
+	}
+	// recursive: <fn>_rec is structural on the fuel; <fn> instantiates it
+	rec := w.recs[fn]
+	var preNames []string
+	for _, a := range pre {
+		preNames = append(preNames, a.name)
+	}
+	b.WriteString("\x01")
+	b.WriteString(doc)
+	fmt.Fprintf(&b, "def %s", rec.lean)
+	for _, a := range pre {
+		fmt.Fprintf(&b, " (%s : %s)", a.name, a.typ)
+	}
+	var pts, pns, under []string
+	for _, a := range params {
+		pts, pns, under = append(pts, a.typ), append(pns, a.name), append(under, "_")
+	}
+	fmt.Fprintf(&b, " : %s → %s\n", strings.Join(append([]string{"Nat"}, pts...), " → "), retT)
+	fmt.Fprintf(&b, "  | %s => .fuel\n", strings.Join(append([]string{"0"}, under...), ", "))
+	fmt.Fprintf(&b, "  | %s => do\n", strings.Join(append([]string{"fuel + 1"}, pns...), ", "))
+	var lets []string
+	for _, r := range x.recPs {
+		if !x.touched[r.name] {
+			continue
+		}
+		var target *xlRec
+		for g := range x.inGroup {
+			if w.recs[g].param == r.name {
+				target = w.recs[g]
+			}
+		}
+		if target != rec && len(pre) > 0 {
+			return "", fmt.Errorf("recursion group with flattened / opaque parameters: only self-recursion is supported")
+		}
+		lets = append(lets, fmt.Sprintf("let %s := %s", r.name, strings.Join(append(append([]string{target.lean}, preNames...), "fuel"), " ")))
+	}
+	b.WriteString(strings.Join(ind(ind(append(lets, body...))), "\n"))
+	b.WriteString("\n\x01")
+	recFuel := substParams(f.RecFuel, x.leanParamNames)
+	fmt.Fprintf(&b, "/-- %s.%s%s with the recursion fuel instantiated: %s -/\n", f.Pkg, recv, f.Name, recFuel)
 	fmt.Fprintf(&b, "def %s", f.Lean)
 	for _, a := range all {
 		fmt.Fprintf(&b, " (%s : %s)", a.name, a.typ)
 	}
-	if x.monadic {
-		retT = "Go.Res " + retT
-	}
-	fmt.Fprintf(&b, " : %s :=%s\n", retT, x.blockKw())
-	b.WriteString(strings.Join(ind(body), "\n"))
-	b.WriteString("\n")
-	w.done[fn] = &xlDone{lean: f.Lean, monadic: x.monadic, nparams: len(all)}
-	if len(x.opaquePs)+len(x.flatPs) > 0 {
-		w.done[fn].nparams = -1 // cannot be called from translated code …
-	}
-	if f.Flatten && len(x.opaquePs) == 0 {
-		// … except by a flattened method on the same receiver (translate_rec.go)
-		w.done[fn].flatKeys, w.done[fn].flatTypes = x.flatKeyList()
-	}
+	fmt.Fprintf(&b, " : %s :=\n  %s\n", retT, strings.Join(append(append(append([]string{rec.lean}, preNames...), "("+recFuel+")"), pns...), " "))
 	return b.String(), nil
+}
+
+// substParams: `$1`, `$2`, … in a whitelist fuel expression stand for the function's parameters by
+// position, so that renaming a parameter or a local variable does not invalidate the whitelist
+func substParams(s string, names []string) string {
+	for i := len(names); i >= 1; i-- {
+		s = strings.ReplaceAll(s, fmt.Sprintf("$%d", i), names[i-1])
+	}
+	return s
 }
